@@ -49,6 +49,38 @@ def summarize(q, r):
     return None
 
 
+def _flat(r, depth=0):
+    """All float content of an answer as one vector (None and strings skipped), in iteration order."""
+    out = []
+    if depth > 3 or r is None:
+        return np.array(out, dtype=float)
+    if isinstance(r, dict):
+        for v in r.values():
+            out.extend(_flat(v, depth + 1).tolist())
+    elif isinstance(r, (float, int, np.floating, np.integer)) and not isinstance(r, bool):
+        out.append(float(r))
+    elif isinstance(r, np.ndarray) and r.dtype.kind in "fi":
+        out.extend(float(x) for x in r.ravel())
+    return np.array(out, dtype=float)
+
+
+def scribble(r, depth=0):
+    """The caller overwrites, in place, every array of an answer it was handed (result dictionaries, matrices, error vectors): what a caller does
+    with an answer is the caller's business and must not reach the fit (the repository's own test_properties_copied states the same contract)."""
+    n = 0
+    if depth > 3:
+        return 0
+    if isinstance(r, np.ndarray):
+        if r.flags.writeable and r.dtype.kind == "f" and r.size:
+            r.fill(-777.0)
+            return 1
+        return 0
+    if isinstance(r, dict):
+        for v in list(r.values()):
+            n += scribble(v, depth + 1)
+    return n
+
+
 class QueryMachine(Machine):
     name = "query"
     properties = (PROP,)
@@ -370,6 +402,19 @@ class QueryMachine(Machine):
             res.bump("op_q_" + q[0])
             self.invariants(sim, base, q, step, raised, res)
             s = summarize(q, r)
+            if s is not None:
+                s = np.array(s, dtype=float)  # (own copy: the answer itself is overwritten below)
+            if raised is None and q[0] in ("cov", "cor", "errors", "asym", "result_dict", "result_dict_asym") and r is not None:
+                keep = _flat(r)
+                if scribble(r):
+                    res.probe("answer_overwritten_by_caller")
+                    self.invariants(sim, base, q, step, None, res)
+                    if q[0] == "result_dict":
+                        # the same question directly again (nothing is computed in between: the answers must agree exactly)
+                        again = _flat(fit.get_result_dict())
+                        if again.shape != keep.shape or not np.array_equal(again, keep, equal_nan=True):
+                            raise Violation(PROP, "same-answer", "result_dict", "get_result_dict() answered %s; after the caller overwrote the arrays of that answer in place the "
+                                            "same question is answered %s" % (_fmt(keep), _fmt(again)), step=step, expected=keep, actual=again, extra={"tags": ["answer-aliased"]})
             qkey = json.dumps(q, sort_keys=True)
             if prev_q != q and raised is None and s is not None and answers.get(qkey) is not None:
                 # the same question again after other queries in between
